@@ -130,7 +130,7 @@ def solver_fit_intercept(name, knobs):
 
 # ------------------------------------------------------------------ data containers
 
-STORAGES_SOLVER = ["F", "C", "csc", "csc64", "csc_unsorted", "csc_zeros"]
+STORAGES_SOLVER = ["F", "C", "csc", "csc64", "csc_unsorted", "csc_zeros", "csc_dup"]
 
 
 def make_container(Xd, storage):
@@ -163,6 +163,24 @@ def make_container(Xd, storage):
                 ind[sl] = ind[sl][::-1]
             M = sp.csc_matrix((data, ind, ptr), shape=M.shape)
             M.has_sorted_indices = False
+        if storage == "csc_dup":
+            # non-canonical format: some entries stored as two pieces at the same (row, column),
+            # which scipy defines as their sum (0.75 v + 0.25 v is exact in binary arithmetic)
+            data, ind, ptr = [], [], [0]
+            k = 0
+            for j in range(M.shape[1]):
+                for t in range(M.indptr[j], M.indptr[j + 1]):
+                    v, r = M.data[t], M.indices[t]
+                    if k % 3 == 0:
+                        data += [0.75 * v, 0.25 * v]
+                        ind += [r, r]
+                    else:
+                        data.append(v)
+                        ind.append(r)
+                    k += 1
+                ptr.append(len(data))
+            M = sp.csc_matrix((np.array(data, dtype=float), np.array(ind, dtype=np.int32),
+                               np.array(ptr, dtype=np.int32)), shape=M.shape)
         if storage == "csc64":
             M = sp.csc_matrix((M.data, M.indices.astype(np.int64), M.indptr.astype(np.int64)),
                               shape=M.shape)
